@@ -175,6 +175,20 @@ def gen_tree(rng, tier):
                 ops.append("r%d" % rng.randrange(0, hi + 2))
         ops.append("r%d" % (hi + 5))
         cases.append({"args": ["diff", ",".join(ops)], "env": {"VR_SEED": 1}})
+    # deadlines far apart: differences of 2^31, 2^32 (ticks: weeks of sleeping next to a short
+    # sleep) and beyond; an ordering decision taken on a narrowed difference mis-sorts the tree
+    pts = [0, 1, 2, 5, (1 << 31) - 1, 1 << 31, (1 << 31) + 1, (1 << 32) - 1, 1 << 32, (1 << 32) + 1, (1 << 32) + 5,
+           3 << 31, 1 << 33, (1 << 40) + 7, (1 << 62) + 3]
+    for _ in range(n_cases(tier, 40, 400)):
+        ops = []
+        base = rng.choice([0, 0, 1000, (1 << 32) - 3, 123456789])
+        for _ in range(rng.randrange(2, 16)):
+            if rng.random() < 0.7:
+                ops.append("i%d" % (base + rng.choice(pts)))
+            else:
+                ops.append("r%d" % (base + rng.choice(pts) + rng.choice([0, 1])))
+        ops.append("r%d" % (base + (1 << 63)))
+        cases.append({"args": ["diff", ",".join(ops)], "env": {"VR_SEED": 1}})
     return cases
 
 
